@@ -20,7 +20,7 @@ func init() {
 	register(&Check{
 		ID: "C04", Level: "exploration", Primary: "script_shapes", EvalCount: "responses_checked",
 		Rule: "a response script = constructor in {NewResponse, NewBindResponse, NewSearchDoneResponse, NewSearchResponseEntry, NewExtendedResponse, NewModifyResponse} x a PRNG-chosen subset of that " +
-			"constructor's documented options (NewResponse without an application code answers with its own tag, ExtendedResponse, whatever the kind of the request - the scripts are carried by bind, search, add, delete and modify requests, a tenth of which pad their message ID with leading zero octets; in 15% of the scripts of the typed constructors also options the constructor does not support - an application code, result code, strings, attributes - placed before or after the supported ones: they must not change what goes out) x 0..4 setters (SetResultCode, SetDiagnosticMessage, SetMatchedDN, SetControls, AddAttribute) with values from an adversarial pool (result codes 0..32767, application " +
+			"constructor's documented options (NewResponse without an application code answers with its own tag, ExtendedResponse, whatever the kind of the request - the scripts are carried by bind, search, add, delete and modify requests, a tenth of which pad their message ID with leading zero octets; in 15% of the scripts of the typed constructors also options the constructor does not support - an application code, result code, strings, attributes - placed before or after the supported ones: they must not change what goes out) x 0..4 setters (SetResultCode, SetDiagnosticMessage, SetMatchedDN, SetControls, AddAttribute, SetResponseName) with values from an adversarial pool (result codes 0..32767, application " +
 			"codes 0..30, empty/binary/invalid-UTF-8 strings, 127/128/65535/65536/200000-byte strings, 0..n attributes x 0..m values, all control kinds); the handler runs the script for a request whose message ID is drawn " +
 			"from 0..2^31-1, and the strict parser checks the one frame it produced against a last-writer-wins model (fields never set are unconstrained). A quarter of the single-response requests write their response object also before some of their setters (each write must show the state at that point); a fifth of the connections park a request and let a LATER request's handler answer it through its own writer (the frame must still carry the parked request's message ID); a third of the requests get 2..3 responses. " +
 			"distinct_nontrivial = distinct (constructor, option subset, setter sequence, length classes, message-id class) signatures",
@@ -33,7 +33,7 @@ func init() {
 			}
 			return ps
 		},
-		MinObserved: []string{"responses_checked", "goldap_responses_checked", "responses_from_a_request_with_several_responses", "responses_written_again_after_further_setters", "requests_answered_by_another_requests_handler", "responses_built_with_options_their_constructor_does_not_support", "scripts_carried_by_add_delete_and_modify_requests", "requests_whose_message_id_was_padded_with_zero_octets"},
+		MinObserved: []string{"responses_checked", "goldap_responses_checked", "responses_from_a_request_with_several_responses", "responses_written_again_after_further_setters", "requests_answered_by_another_requests_handler", "responses_built_with_options_their_constructor_does_not_support", "scripts_carried_by_add_delete_and_modify_requests", "requests_whose_message_id_was_padded_with_zero_octets", "extended_responses_given_a_response_name"},
 	})
 }
 
@@ -198,6 +198,8 @@ func genScript(r *Rand, ctor string) *c04Script {
 			kinds = []string{"addattr", "addattr", "addattr", "code", "diag", "matched"}
 		case "NewBindResponse", "NewSearchDoneResponse":
 			kinds = []string{"code", "diag", "matched", "controls", "controls"}
+		case "NewExtendedResponse":
+			kinds = []string{"code", "diag", "matched", "respname"}
 		default:
 			kinds = []string{"code", "diag", "matched"}
 		}
@@ -205,6 +207,8 @@ func genScript(r *Rand, ctor string) *c04Script {
 		switch st.Kind {
 		case "code":
 			st.Code = c04Code(r)
+		case "respname":
+			st.Str = []byte(pick(r, []string{"1.3.6.1.4.1.1466.20037", "1.3.6.1.1.8", "1.2.3", "", "not-an-oid"}))
 		case "diag", "matched":
 			st.Str = c04Bytes(r)
 		case "controls":
@@ -220,7 +224,7 @@ func genScript(r *Rand, ctor string) *c04Script {
 	return s
 }
 
-var c04Foreign, c04OtherKinds, c04PaddedIDs atomic.Int64
+var c04Foreign, c04OtherKinds, c04PaddedIDs, c04RespNames atomic.Int64
 
 type c04Parked struct {
 	req  *gldap.Request
@@ -236,6 +240,7 @@ type c04Built struct {
 		SetMatchedDN(string)
 	}
 	setCtls func(...gldap.Control)
+	setName func(gldap.ExtendedOperationName)
 	addAttr func(string, []string)
 	next    int
 	wrote   map[int]bool
@@ -263,6 +268,10 @@ func (b *c04Built) step() (bool, error) {
 		b.setCtls(cs...)
 	case "addattr":
 		b.addAttr(string(st.Name), bytesToStrs(st.Vals))
+	case "respname":
+		// (what becomes of the name is not asserted; the message stays one well-formed LDAPMessage with everything else as set)
+		b.setName(gldap.ExtendedOperationName(st.Str))
+		c04RespNames.Add(1)
 	}
 	return true, nil
 }
@@ -382,7 +391,7 @@ func (s *c04Script) build(r *gldap.Request) *c04Built {
 		b.resp, b.base, b.addAttr = x, x, x.AddAttribute
 	case "NewExtendedResponse":
 		x := r.NewExtendedResponse(opts...)
-		b.resp, b.base = x, x
+		b.resp, b.base, b.setName = x, x, x.SetResponseName
 	case "NewModifyResponse":
 		x := r.NewModifyResponse(opts...)
 		b.resp, b.base = x, x
@@ -782,6 +791,7 @@ func c04Scripts(c *Ctx, useTLS bool) {
 	c.Count("responses_built_with_options_their_constructor_does_not_support", c04Foreign.Swap(0))
 	c.Count("scripts_carried_by_add_delete_and_modify_requests", c04OtherKinds.Swap(0))
 	c.Count("requests_whose_message_id_was_padded_with_zero_octets", c04PaddedIDs.Swap(0))
+	c.Count("extended_responses_given_a_response_name", c04RespNames.Swap(0))
 }
 
 // c04GoLDAP pushes Bind and Search flows through go-ldap as a second observer.
